@@ -79,42 +79,6 @@ theorem repaired_guarded_secret_needs_unlock {s s' : State} (hr : Reach repaired
     · simp at h
     · simpa using ‹¬ s.locked = true›
 
-/-- interleavings without any ProcWalletSetPasswd step. -/
-inductive ReachNoSp (v : Variant) : State → Prop where
-  | init (m : Bool) : ReachNoSp v { memPw := m }
-  | step {s s' : State} {l : Label} {o : Out} : ReachNoSp v s →
-      (∀ a b c, l ≠ .spBegin a b c) → l ≠ .spStep → step v s l = some (s', o) → ReachNoSp v s'
-
-theorem noSp_sp_none {v : Variant} {s : State} (h : ReachNoSp v s) : s.sp = none := by
-  induction h with
-  | init m => rfl
-  | @step s s' l o _ hb hs hst ih =>
-    cases l with
-    | spBegin a b c => exact absurd rfl (hb a b c)
-    | spStep => exact absurd rfl hs
-    | read => simp only [step, Option.some.injEq, Prod.mk.injEq] at hst; rw [← hst.1]; exact ih
-    | lock => simp only [step, Option.some.injEq, Prod.mk.injEq] at hst; rw [← hst.1]; exact ih
-    | timer =>
-      simp only [step] at hst
-      split at hst
-      · simp only [Option.some.injEq, Prod.mk.injEq] at hst; rw [← hst.1]; exact ih
-      · simp at hst
-    | guarded =>
-      simp only [step, ih] at hst
-      split at hst <;> simp only [Option.some.injEq, Prod.mk.injEq] at hst <;> rw [← hst.1] <;> exact ih
-    | restart => simp only [step, ih, Option.some.injEq, Prod.mk.injEq] at hst; rw [← hst.1]
-    | unlock a b c =>
-      simp only [step, ih] at hst
-      split at hst
-      · simp only [Option.some.injEq, Prod.mk.injEq] at hst; rw [← hst.1]; exact ih
-      · split at hst <;> simp only [Option.some.injEq, Prod.mk.injEq] at hst <;> rw [← hst.1] <;> exact ih
-
-theorem noSp_reachS {v : Variant} {s : State} (h : ReachNoSp v s) : ReachS v s := by
-  induction h with
-  | init m => exact ReachS.init m
-  | step hr _ _ hst ih =>
-    exact ReachS.step ih (fun _ c hc => by rw [noSp_sp_none hr] at hc; simp at hc) hst
-
 /-- **Partial (no password change in the history)**: over all interleavings of unlock (right / wrong password,
 wallet or ticket-only, with / without timeout), lock, timeout, readers, guarded handlers and restarts the
 wallet is unlocked only after a successful unlock and before the next lock / timeout. -/
